@@ -204,7 +204,7 @@ class WebSocketFrame(object):
 
         if length == 126:
             length, = struct.unpack("!H", socket.recv(2))
-        if length == 127:
+        elif length == 127:
             length, = struct.unpack("!Q", socket.recv(8))
 
         self.payload_length = length
